@@ -377,7 +377,8 @@ def values(spec, depth=2):
         # (sizes around 57 / 76 bytes: where MIME-style base64 starts to wrap lines; a few hundred bytes for good measure)
         good = st.one_of(st.binary(max_size=8), st.text(max_size=6), st.sampled_from([b"", "", "é", b"\x00\xff", "aGVsbG8=", "deadbeef", b"deadbeefdeadbeef"]),
                          st.sampled_from([5, [b"a"], None, True, 1.5]),
-                         st.sampled_from([56, 57, 58, 76, 77, 114, 115, 300]).flatmap(lambda n: st.binary(min_size=n, max_size=n)))
+                         st.sampled_from([56, 57, 58, 76, 77, 114, 115, 300]).flatmap(lambda n: st.binary(min_size=n, max_size=n)),
+                         st.sampled_from([Opaque("bytearray:6162"), Opaque("memoryview:6162"), Opaque("bytearray:")]))
     elif kind == "loglevel":
         lv = opts.get("levels") or DEFAULT_LEVELS
         good = st.one_of(st.sampled_from(lv), st.sampled_from(lv).map(str.upper), st.sampled_from(lv).map(lambda s: "  %s\n" % s.title()),
@@ -427,6 +428,11 @@ def _hashable(x):
 def realize(value):
     """Turn a descriptor value into the Python object handed to the code under test."""
     if isinstance(value, Opaque):
+        # "bytearray:<hex>" / "memoryview:<hex>": bytes-like objects that are not bytes (the caller's own mutable buffer)
+        if value.name.startswith("bytearray:"):
+            return bytearray(bytes.fromhex(value.name.split(":", 1)[1]))
+        if value.name.startswith("memoryview:"):
+            return memoryview(bytearray(bytes.fromhex(value.name.split(":", 1)[1])))
         return object()
     if isinstance(value, str):
         return subst(value)
